@@ -14,6 +14,8 @@ pub fn base_env() -> TypeEnv {
     env.add(StructDef { name: INNER2.into(), members: vec![Member::plain("p", Ty::Vec(2, f)), Member::plain("q", Ty::Scalar(Scalar::U32)), Member::plain("r", Ty::Scalar(f))] });
     // a second struct with exactly the members of INNER (look-alike types must keep their own names)
     env.add(StructDef { name: "InnerTwin".into(), members: vec![Member::plain("x", Ty::Vec(3, f)), Member::plain("y", Ty::Scalar(f))] });
+    // a small struct with 4-byte alignment (size 8): containers of it can have a size that is not a multiple of 16
+    env.add(StructDef { name: "Pair".into(), members: vec![Member::plain("lo", Ty::Scalar(f)), Member::plain("hi", Ty::Scalar(f))] });
     env.add(StructDef { name: DEEP.into(), members: vec![Member::plain("head", Ty::Scalar(Scalar::I32)), Member::plain("inner", Ty::Struct(INNER.into())), Member::plain("tail", Ty::Vec(2, f))] });
     env
 }
@@ -55,6 +57,7 @@ pub fn leaf_table(with_f64: bool) -> Vec<Ty> {
     // a struct under two array levels (reachable only through both)
     v.push(Ty::Array(Box::new(Ty::Array(Box::new(Ty::Struct(INNER2.into())), 2)), 3));
     v.push(Ty::Struct(INNER.into()));
+    v.push(Ty::Struct("Pair".into()));
     v.push(Ty::Struct(INNER2.into()));
     v.push(Ty::Struct(DEEP.into()));
     v
